@@ -156,7 +156,7 @@ static void run_case(int k, const std::string & head, const std::string & body)
          {
             std::vector<std::string> a = Split(cmds[ci], ':');
             const std::string & v = a[0];
-            if (ci) verbs += "&"; verbs += v;
+            if (ci) verbs += "_"; verbs += v;
             if (v != "gd") pureGet = false;
             if (v == "sd") msgs.push_back(MkSetData(a[1], (a[2] == "1") ? (1u<<SETDATANODE_FLAG_ADDTOINDEX) : 0, (int32)oi));
             else if (v == "io")
